@@ -782,9 +782,11 @@ func outReturnViaTag(tagType [2]string, tagConst string) func(r *Run, fn *ssa.Fu
 		T := r.P.NamedType(tagType[0], tagType[1])
 		var tb *ssa.BasicBlock
 		if T != nil {
-			if tag := pickTag(fn, T, enumConstants(T)[tagConst]); tag != nil {
-				if in, ok := tag.(ssa.Instruction); ok {
-					tb = in.Block()
+			for _, g := range funcGroup(fn) {
+				if tag := pickTag(g, T, enumConstants(T)[tagConst]); tag != nil && tb == nil {
+					if in, ok := tag.(ssa.Instruction); ok {
+						tb = in.Block()
+					}
 				}
 			}
 		}
